@@ -396,4 +396,127 @@ theorem chunk_down_switch_aligned (cfg : Cfg ρ) (olen0 : Nat) (l : LoopSt ρ) (
   exact (show Doubled (chunkFinish l true (true && negLeftShift A.1 (-1)) _).st.cur
     (chunkFinish l true (true && negLeftShift A.1 (-1)) _).st.fo by rw [e1, e2]; exact k2)
 
+/-! ### The fade from stage 0 down to the up-sampling stage (`poly_fir_fade_d` on the fade-out, `poly_fir_fade_u` on the current stream)
+
+The new current stream (stage −1, one clock step per output frame) is the old one exactly: clock doubled, increment and
+slew increment quadrupled, `len` doubled.  The fade-out stream runs first (it is the 2x-rate one); every pair it
+delivers had its first sample inside the input, which is exactly the condition of the current stream's iteration. -/
+
+/-- `c` (up-sampling stream on stage −1) is `f` (down-sampling stream on stage 0) in half samples, per whole frame -/
+def Quad (c f : Stream) : Prop :=
+  c.clk = 2 * f.clk ∧ c.step = 4 * f.step ∧ c.ss = 4 * f.ss ∧ c.len = 2 * f.len
+
+theorem fadeUIter_quad (n : Nat) : ∀ (c f : Stream), Quad c f →
+    (fadeUIter c (firDPairs f n).2).2 = (firDPairs f n).2 ∧ Quad (fadeUIter c (firDPairs f n).2).1 (firDPairs f n).1 := by
+  induction n with
+  | zero => intro c f h; exact ⟨rfl, h⟩
+  | succ n ih =>
+    intro c f h
+    obtain ⟨h1, h2, h3, h4⟩ := h
+    by_cases a1 : INT f.clk < f.len
+    · by_cases a2 : INT (f.clk + f.step) < f.len
+      · have e : firDPairs f (n + 1) =
+            ((firDPairs { f with clk := f.clk + f.step + f.step, step := f.step + f.ss } n).1,
+             (firDPairs { f with clk := f.clk + f.step + f.step, step := f.step + f.ss } n).2 + 1) := by
+          conv => lhs; unfold firDPairs
+          rw [if_pos a1]; dsimp only; rw [if_pos a2]
+        rw [e]
+        dsimp only
+        have c1 : INT c.clk < c.len := by rw [h1, h4]; exact (INT_lt_doubled _ _).mpr a1
+        have ec : ∀ q, fadeUIter c (q + 1) =
+            ((fadeUIter { c with clk := c.clk + c.step, step := c.step + c.ss } q).1,
+             (fadeUIter { c with clk := c.clk + c.step, step := c.step + c.ss } q).2 + 1) := by
+          intro q
+          conv => lhs; unfold fadeUIter
+          rw [if_pos c1]
+        rw [ec]
+        dsimp only
+        have := ih { c with clk := c.clk + c.step, step := c.step + c.ss }
+          { f with clk := f.clk + f.step + f.step, step := f.step + f.ss }
+          ⟨by show c.clk + c.step = 2 * (f.clk + f.step + f.step); omega,
+           by show c.step + c.ss = 4 * (f.step + f.ss); omega, h3, h4⟩
+        exact ⟨by rw [this.1], this.2⟩
+      · have e : firDPairs f (n + 1) = (f, 0) := by
+          conv => lhs; unfold firDPairs
+          rw [if_pos a1]; dsimp only; rw [if_neg a2]
+        rw [e]
+        exact ⟨rfl, h1, h2, h3, h4⟩
+    · have e : firDPairs f (n + 1) = (f, 0) := by
+        conv => lhs; unfold firDPairs
+        rw [if_neg a1]
+      rw [e]
+      exact ⟨rfl, h1, h2, h3, h4⟩
+
+/-- **Alignment of the fade from stage 0 to the up-sampling stage, one chunk** — slews included: everything is exact. -/
+theorem fadeStreams_quad (c f : Stream) (n : Nat) (hc : c.isD = false) (hf : f.isD = true) (h : Quad c f) :
+    (fadeStreams c f n).2.2.1 = (fadeStreams c f n).2.2.2 ∧ Quad (fadeStreams c f n).1 (fadeStreams c f n).2.1 := by
+  unfold fadeStreams
+  rw [hc, hf]
+  simp only [Bool.false_and, Bool.false_eq_true, if_false]
+  unfold firD fadeU
+  dsimp only
+  have hN : (2 * (firDPairs f ((n + 1) / 2)).2 + 1) / 2 = (firDPairs f ((n + 1) / 2)).2 := by omega
+  rw [hN]
+  obtain ⟨d1, d2⟩ := fadeUIter_quad ((n + 1) / 2) c f h
+  exact ⟨by rw [d1], d2⟩
+
+theorem kernels_quad (s : St ρ) (olen mn mx : Int) (hfade : s.fade ≠ 0) (hc : s.cur.isD = false) (hf : s.fo.isD = true)
+    (h : Quad s.cur s.fo) :
+    (kernels s olen mn mx).mis = false ∧ Quad (kernels s olen mn mx).st.cur (kernels s olen mn mx).st.fo := by
+  unfold kernels
+  rw [if_pos hfade]
+  dsimp only
+  obtain ⟨a, b⟩ := fadeStreams_quad s.cur s.fo (2 * min olen (s.fade / 2)).toNat hc hf h
+  exact ⟨by simp [a], b⟩
+
+/-- the switch from stage 0 to the up-sampling stage starts such a pair, whatever `occupancy0` is -/
+theorem switch_to_upsampling_quad (s : St ρ) (occ0 : Int) (hsn : s.cur.sn = 0) (hd : s.cur.isD = true)
+    (hlen : s.cur.len = shiftr occ0 s.cur.sn) :
+    Quad (switchStage s (-1) occ0).cur (switchStage s (-1) occ0).fo ∧
+    (switchStage s (-1) occ0).cur.isD = false ∧ (switchStage s (-1) occ0).fo.isD = true ∧
+    (switchStage s (-1) occ0).fade ≠ 0 := by
+  obtain ⟨_, _, _, _, _, h6, h7, _, _, h10, _, h12, h13, h14⟩ := switchStage_spec s (-1) occ0
+  have hl := switchStage_len s (-1) occ0
+  have hsh : switchShift s (-1) = 2 := by
+    unfold switchShift
+    rw [hd, hsn]; decide
+  rw [hsh, lshift_two] at h13 h14
+  have h12' : (switchStage s (-1) occ0).cur.clk = s.cur.clk * 2 := by rw [h12]; exact lshift_one _
+  refine ⟨⟨by rw [h12', h6]; omega, by rw [h13, h6]; omega, by rw [h14, h6]; omega, ?_⟩, ?_, by rw [h6]; exact hd, ?_⟩
+  · rw [hl, h6, hlen, hsn]
+    simp [shiftr]
+    omega
+  · rw [h10, hsn]; decide
+  · rw [h7]; decide
+
+/-- **Every switch from stage 0 to the up-sampling stage, anywhere in the loop, starts an aligned fade**, and every
+    chunk of it is aligned (`kernels_quad`). -/
+theorem chunk_switch_to_upsampling_aligned (cfg : Cfg ρ) (olen0 : Nat) (l : LoopSt ρ) (h : OccInv l)
+    (hsw : doesSwitch (chunkStart cfg l.st (olen0 - l.od0)).1 = true)
+    (hdif : stageDif (chunkStart cfg l.st (olen0 - l.od0)).1 = -1) (hsn : l.st.cur.sn = 0) :
+    (chunk cfg olen0 l).1.nmis = l.nmis ∧ Quad (chunk cfg olen0 l).1.st.cur (chunk cfg olen0 l).1.st.fo := by
+  obtain ⟨h1, h2⟩ := h
+  obtain ⟨a1, a2⟩ := chunkStart_cur cfg l.st (olen0 - l.od0)
+  have hisd : (chunkStart cfg l.st (olen0 - l.od0)).1.cur.isD = true := by
+    rcases stageDif_cases (chunkStart cfg l.st (olen0 - l.od0)).1 with hd | hd | ⟨_, hd⟩
+    · omega
+    · omega
+    · exact hd
+  unfold chunk
+  dsimp only
+  generalize hA : chunkStart cfg l.st (olen0 - l.od0) = A at a1 a2 hsw hdif hisd
+  simp only [hsw, hdif, if_true, switchOcc_down]
+  obtain ⟨d1, d2, d3, d4⟩ := switch_to_upsampling_quad A.1 l.occ (by rw [a1]; exact hsn) hisd (by rw [a1, a2]; exact h2)
+  obtain ⟨k1, k2⟩ := kernels_quad (switchStage A.1 (-1) l.occ) A.2 (chunkMn l (-1))
+    (chunkMx l (-1) (decide (A.1.cur.sn + -1 < A.1.ns))) d4 d2 d3 d1
+  have hfin : ∀ (sw shl : Bool) (K : KRes ρ), (chunkFinish l sw shl K).st.cur = K.st.cur ∧
+      (chunkFinish l sw shl K).st.fo = K.st.fo ∧ (chunkFinish l sw shl K).nmis = l.nmis + (if K.mis then 1 else 0) := by
+    intro sw shl K; unfold chunkFinish; dsimp only; split <;> exact ⟨rfl, rfl, rfl⟩
+  obtain ⟨f1, f2, f3⟩ := hfin true (true && negLeftShift A.1 (-1)) (kernels (switchStage A.1 (-1) l.occ) A.2 (chunkMn l (-1))
+    (chunkMx l (-1) (decide (A.1.cur.sn + -1 < A.1.ns))))
+  refine ⟨f3.trans (by rw [k1]; simp), ?_⟩
+  have e1 := f1; have e2 := f2
+  exact (show Quad (chunkFinish l true (true && negLeftShift A.1 (-1)) _).st.cur
+    (chunkFinish l true (true && negLeftShift A.1 (-1)) _).st.fo by rw [e1, e2]; exact k2)
+
 end Soxr.Vr
